@@ -241,6 +241,19 @@ class Lab:
                 op['via'] = 'bytes'
             if op['op'] == 'reopen':
                 op = {'op': 'addLoose', 'on': 'a', 'c': rng.randrange(len(pool)), 'via': 'bytes'}
+            if self.focus == 'delete':
+                # a deletion that hits every storage form: loose only, packed only, both, and a key that is not there
+                rca = runner.conts['a']
+                raw_ = rca.raw()
+                loose_c = [rca.cid(k_) for k_ in raw_.loose_bytes if rca.cid(k_) is not None]
+                packed_c = [rca.cid(r_[1]) for r_ in raw_.rows if rca.cid(r_[1]) is not None]
+                ks_ = rng.sample(loose_c, min(len(loose_c), 2)) + rng.sample(packed_c, min(len(packed_c), 2))
+                absent = [c_ for c_ in range(len(pool)) if c_ not in rca.expected]
+                if absent and rng.random() < 0.5:
+                    ks_.append(rng.choice(absent))
+                rng.shuffle(ks_)
+                if ks_:
+                    op = {'op': 'delete', 'on': 'a', 'ks': ks_}
             if self.focus == 'noholes':
                 # direct-to-pack with no_holes and a single pass: known objects (rewound and truncated away) mixed with new ones
                 known = sorted(runner.conts['a'].cid(r[1]) for r in runner.conts['a'].raw().rows if runner.conts['a'].cid(r[1]) is not None)
@@ -398,7 +411,12 @@ class Lab:
                 keep_k = sorted(expected_after) if k >= n and kind != 'delete' else keep
                 self._crash_point(runner, rc, cfg, pool, scratch, op, args, k, events, keep_k, univ, model_prefix, kind, expected_after)
             if 'fault' in self.parts and k < n:
-                self._fault_point(runner, rc, cfg, pool, scratch, op, args, k, events, keep, univ, model_prefix, kind, expected_after)
+                if n <= 16:
+                    # short operations (delete, clean, small adds): both kinds of error at every call
+                    for ea in (False, True):
+                        self._fault_point(runner, rc, cfg, pool, scratch, op, args, k, events, keep, univ, model_prefix, kind, expected_after, ea)
+                else:
+                    self._fault_point(runner, rc, cfg, pool, scratch, op, args, k, events, keep, univ, model_prefix, kind, expected_after)
 
     def _target_read(self, rc, cfg, pool, scratch, op):
         """a read-type operation with one failing I/O call: it raises, or it answers as if nothing had failed (C17)"""
@@ -619,13 +637,13 @@ class Lab:
                 self.failures.append({'signature': f'rerun-{kind}', 'text': p, 'replay': self._replay(op, k, 'rerun')})
             self.bump('reruns')
 
-    def _fault_point(self, runner, rc, cfg, pool, scratch, op, args, k, events, keep, univ, model_prefix, kind, expected_after):
+    def _fault_point(self, runner, rc, cfg, pool, scratch, op, args, k, events, keep, univ, model_prefix, kind, expected_after, force_eacces=None):
         d = os.path.join(scratch, f'fault{k}')
         _copy(rc.folder, d)
         log = os.path.join(scratch, f'fault{k}.log')
         outp = os.path.join(scratch, f'fault{k}.out')
         # the failing call raises EIO, or (every third point) EACCES: the library has branches of its own for PermissionError
-        eacces = (k + self.case_id) % 3 == 0
+        eacces = (k + self.case_id) % 3 == 0 if force_eacces is None else force_eacces
         op_run = dict(op, fault_errno='EACCES') if eacces else op
         _run_op_child(d, cfg, pool, op_run, 'fault', k, log, outp, self.src)
         self.bump('fault_points')
